@@ -202,9 +202,11 @@ def _nan_eq(a, b):
     return repr(a) == repr(b)
 
 
-def run_case(ctx, old_qs, op, form, arg, sig_extra=(), base_text="http://example.com/p"):
+def run_case(ctx, old_qs, op, form, arg, sig_extra=(), base_text="http://example.com/p", encoded=False):
     """Execute one operation and compare with the model."""
-    from yarl import URL
+    from yarl import URL as _URL
+
+    URL = (lambda t: _URL(t, encoded=True)) if encoded else _URL
 
     if form == "kwargs" and not arg:
         return  # f(**{}) is a call without arguments: a usage error, not a query
@@ -216,6 +218,8 @@ def run_case(ctx, old_qs, op, form, arg, sig_extra=(), base_text="http://example
     old = ref_parse_plain(old_qs, True)
     got_old = guarded(lambda: list(u.query.items()))
     case = {"url": url_text, "op": op, "form": form, "arg": _argjson(arg)}
+    if encoded:
+        case["encoded"] = True
     if got_old != old:
         ctx.count("existing_query_out_of_model")
         return
@@ -371,6 +375,28 @@ def run_kernel(ctx):
                         if op == "mod" and form == "kwargs":
                             continue
                         run_case(ctx, old, op, form, build_arg(form, new), ("k2",))
+    # every way a key can be SPELLED in a parsed (or encoded=True) receiver: the named key is the decoded text
+    spell = {
+        "a b": ["a%20b", "a+b"], "k;": ["k;", "k%3B", "k%3b"], "a": ["a", "%61"], "é": ["é", "%C3%A9", "%c3%a9"], "k+": ["k%2B", "k%2b"], "k&": ["k%26"], "k=": ["k%3D", "k%3d"],
+        "k/": ["k/", "k%2F"], "k?": ["k?", "k%3F"], "k:@": ["k:@", "k%3A%40"], "k~": ["k~", "k%7E"], "k%": ["k%25"], "k#": ["k%23"], "k'": ["k'", "k%27"], "k$,": ["k$,", "k%24%2C"],
+        "": [""], " ": ["+", "%20"], "k!*()": ["k!*()", "k%21%2A%28%29"], "K": ["K", "%4B"], "k\x7f": ["k%7F"], "k\n": ["k%0A"],
+    }
+    for key, sps in spell.items():
+        for sp in sps:
+            for old in (f"{sp}=o0&b=o1", f"b=o0&{sp}=o1&{sp}=o2", f"{sp}&b=o1" if sp else "=o0&b=o1", f"{sp}=o0&{sps[-1]}=o1&b=o2"):
+                for enc in (False, True):
+                    i += 1
+                    if not ctx.mine(i):
+                        continue
+                    if enc and not old.isascii():
+                        continue
+                    run_case(ctx, old, "without_query_params", "args", (key,), ("sp",), encoded=enc)
+                    run_case(ctx, old, "without_query_params", "args", ("zz", key), ("sp",), encoded=enc)
+                    run_case(ctx, old, "without_query_params", "args", ("b",), ("sp",), encoded=enc)
+                    for op in ("update_query", "extend_query", "with_query", "mod"):
+                        for form in ("dict", "list", "mdict"):
+                            run_case(ctx, old, op, form, build_arg(form, [(key, "n0")]), ("sp",), encoded=enc)
+                            run_case(ctx, old, op, form, build_arg(form, [("b", "n0"), (key, "n1")]), ("sp",), encoded=enc)
     ctx.notes["kernel_cases"] = i
     ctx.sample({"url": "http://example.com/p?a=o0&b=o1&a=o2#frag", "op": "update_query", "form": "list", "arg": [["a", "n0"], ["c", "n1"]]})
 
@@ -472,7 +498,7 @@ def run(ctx):
         if c["form"] == "args":
             arg = tuple(arg)
         old = c["url"].split("?", 1)[1].rsplit("#", 1)[0] if "?" in c["url"] else ""
-        run_case(ctx, old, c["op"], c["form"], arg)
+        run_case(ctx, old, c["op"], c["form"], arg, encoded=bool(c.get("encoded")))
         return
     if ctx.part == "kernel":
         run_kernel(ctx)
